@@ -193,6 +193,7 @@ Definition h_borrow (w : hworld) (a b : nat) (amount : Z) : res hworld :=
   let* hb := nth_bank w b in let* ac := nth_acct w a in
   let bk := hb_b hb in
   let* _ := check (is_marginfi_tag (b_asset_tag bk)) (E E_WrongAssetTagForStandardInstructions) in
+  let* _ := check (negb (get_flag (b_flags bk) TOKENLESS_REPAYMENTS_ALLOWED)) (E E_ForbiddenIx) in
   let* _ := check (negb (aflag ac ACCOUNT_DISABLED) && negb (aflag ac ACCOUNT_IN_RECEIVERSHIP)) (E E_AccountDisabled) in
   let* bk1 := accrue_interest bk (hw_pf w) (hw_now w) in
   let* _ := validate_asset_tags bk1 (ha_la ac) in
